@@ -25,7 +25,7 @@ ASSUMPTIONS = ['amplifier bands are those of the library entry named by each amp
 def band_case(draw, invalid=False, three=False):
     edges = draw(bandnets.band_edges(same_fmax=draw(st.booleans()), third_band=three))
     multiband = True if three else draw(st.booleans())
-    classes = ['CLS'] if three else ['CL', 'CL', 'CLred', 'CL'] if multiband else ['auto', 'C', 'Cred', 'Cred2', 'Cshort', 'Cshort', 'auto']
+    classes = ['CLS'] if three else ['CL', 'CL', 'CLred', 'CL', 'W'] if multiband else ['auto', 'C', 'Cred', 'Cred2', 'Cshort', 'Cshort', 'auto']
     topo, truth = draw(bandnets.band_topology(classes, edges, n=(2, 4), extra_max=2))
     src = draw(st.integers(0, truth['n'] - 1))
     dst = draw(st.integers(0, truth['n'] - 2))
